@@ -138,9 +138,13 @@ def _run_pred(ctx, spec, rng):
         dout = int(rng.integers(2, 5))
         r = int(rng.integers(max(1, -(-din // dout)), 4))
         r = max(r, -(-din // dout))
+        if spec[2] % 4 == 1:  # a proper isometry as the only Kraus operator: a channel, but not a unitary one
+            dout, r = din + int(rng.integers(1, 3)), 1
         a_ops = gen.stinespring_kraus(rng, din, dout, r, cplx)
         b_ops = a_ops
         truth = dict(cp=True, hp=True, tp=True, qc=True, pos=True)
+        if r == 1 and dout != din:
+            truth["unitary"] = False
         s = _indep_rank(a_ops)
         if s.min() > 1e-2:
             truth["rank"] = len(a_ops)
@@ -239,7 +243,7 @@ def _run_pred(ctx, spec, rng):
                 _ask(ctx, "is_trace_preserving", is_trace_preserving, f, truth["tp"], sig, det)
         if "unital" in truth and din == dout:
             _ask(ctx, "is_unital", is_unital, f, truth["unital"], sig, det)
-        if "unitary" in truth and din == dout:
+        if "unitary" in truth and (din == dout or fname != "choi"):
             _ask(ctx, "is_unitary", is_unitary, f, truth["unitary"], sig, det)
         if "extremal" in truth and fname in ("flat", "col", "choi") and din == dout:
             _ask(ctx, "is_extremal", is_extremal, f, truth["extremal"], sig, det)
